@@ -4,7 +4,7 @@ Everything is drawn from one random.Random; boundary-biased: list lengths around
 8-per-line chunk edges, 0..12 default incons, table generators with 1..12 times with and
 without enthalpy, None in optional fields, both flavours, three mesh placements, extra
 precision off / on / echoed, legal permutations of the section order."""
-import string
+import string, math
 from props.c01_oracle import SECTIONS, DEPENDS, XP_SECTIONS
 
 LETTERS = string.ascii_letters
@@ -381,3 +381,21 @@ def witness_specs():
     s = base_spec(); s['config'] = {'mesh': 'infile', 'xp': True, 'echo': True}; s['blocks'][0]['volume'] = 1.234549999999
     out.append(('echo-double-rounding', s))
     return out
+
+
+def fortran_spec(rng):
+    """a spec restricted to the sections the independent Fortran-style writer emits"""
+    from props.c01_fortran import FORTRAN_SECTIONS
+    sp = gen_spec(rng, force={'mesh': 'infile', 'xp': None, 'echo': None})
+    sp['more_option'] = None; sp['lineq'] = {}; sp['solver'] = {}; sp['selection'] = {}; sp['diffusion'] = []; sp['meshmaker'] = []
+    sp['short'] = None; sp['history_block'] = []; sp['history_connection'] = []; sp['history_generator'] = []; sp['indom'] = []
+    if sp['output_times']: sp['output_times'].pop('num_times', None) if rng.random() < 0.5 else None
+    sp['order'] = [k for k in sp['order'] if k in FORTRAN_SECTIONS]
+    sp['conne_plus'] = rng.random() < 0.3
+    # a Fortran E field always shows its digits: no 3-digit exponents
+    def clamp(x):
+        if isinstance(x, float) and x != 0 and not (1e-90 < abs(x) < 1e90): return math.copysign(1.5, x)
+        if isinstance(x, list): return [clamp(y) for y in x]
+        if isinstance(x, dict): return {k: clamp(v) for k, v in x.items()}
+        return x
+    return clamp(sp)
